@@ -24,19 +24,19 @@ func Float64() float64 {
 	return rrand.Float64()
 }
 
-func Float32() float32          { return float32(Float64()) }
-func IntN(n int) int            { return rrand.IntN(n) }
-func Int() int                  { return rrand.Int() }
-func Int64() int64              { return rrand.Int64() }
-func Int64N(n int64) int64      { return rrand.Int64N(n) }
-func Uint32() uint32            { return rrand.Uint32() }
-func Uint64() uint64            { return rrand.Uint64() }
-func Perm(n int) []int          { return rrand.Perm(n) }
+func Float32() float32                { return float32(Float64()) }
+func IntN(n int) int                  { return rrand.IntN(n) }
+func Int() int                        { return rrand.Int() }
+func Int64() int64                    { return rrand.Int64() }
+func Int64N(n int64) int64            { return rrand.Int64N(n) }
+func Uint32() uint32                  { return rrand.Uint32() }
+func Uint64() uint64                  { return rrand.Uint64() }
+func Perm(n int) []int                { return rrand.Perm(n) }
 func Shuffle(n int, f func(i, j int)) { rrand.Shuffle(n, f) }
-func NormFloat64() float64      { return rrand.NormFloat64() }
+func NormFloat64() float64            { return rrand.NormFloat64() }
 
 type Rand = rrand.Rand
 type Source = rrand.Source
 
-func New(src Source) *Rand           { return rrand.New(src) }
-func NewPCG(a, b uint64) *rrand.PCG  { return rrand.NewPCG(a, b) }
+func New(src Source) *Rand          { return rrand.New(src) }
+func NewPCG(a, b uint64) *rrand.PCG { return rrand.NewPCG(a, b) }
